@@ -12,7 +12,8 @@
    ragged_roundtrip, patterns_roundtrip : the same round trip for load_ragged_time_series and load_patterns.
    violating_content_is_warned_not_raised, load_tempo_spec, load_key_spec : the wrappers raise exactly when load_delimited does;
                               the validators only produce the warning -- except the weight / one-line tests.
-   load_patterns_index_error_refuted, load_tempo_empty_index_error_refuted : the two IndexErrors of the implementation.
+   load_tempo_empty_raises_value_error, load_tempo_never_index_error, load_patterns_wrong_columns_raise,
+   load_patterns_only_value_error : the two former IndexErrors (fixed in /repo by 7de24cd and f596eb3) are ValueErrors now.
    Conditions found by proving `roundtrip` (see `wf_row`): with n columns, n >= 2, the LAST token may contain the delimiter
    (but, for a `+` delimiter, not start with it); with ONE column maxsplit = 0 means "unlimited", so the single token must
    be delimiter-free (`ex_one_column_label_not_loadable`). *)
@@ -314,6 +315,68 @@ Proof.
   - injection Hc as ->. injection Ht as ->. cbn. rewrite Hn. reflexivity.
   - destruct (convert num conv c t); [|reflexivity]. rewrite (IH ts j tok); [reflexivity|lia|assumption..].
 Qed.
+(* load_delimited itself raises nothing but the row-numbered ValueError (and the model's "unsupported delimiter") *)
+Lemma load_rows_errors : forall convs d comment ls k,
+  match load_rows num conv convs d comment k ls with
+  | ROk _ => True | RaiseAt _ e => e = ValueError | RaiseNoRow e => e = OtherExn end.
+Proof.
+  intros convs d comment. induction ls as [|l ls IH]; intros k; cbn [load_rows]; [exact I|].
+  destruct (is_comment comment l); [apply IH|].
+  destruct (re_split d _ (pystrip l)) as [data|]; [|reflexivity].
+  destruct (negb (Nat.eqb (length convs) (length data))); [reflexivity|].
+  destruct (convert_row num conv convs data) as [vs|]; [|reflexivity].
+  specialize (IH (S k)). destruct (load_rows num conv convs d comment (S k) ls); [exact I|exact IH|exact IH].
+Qed.
+Lemma load_delimited_errors : forall convs d comment text,
+  match load_delimited num conv convs d comment text with
+  | ROk _ => True | RaiseAt _ e => e = ValueError | RaiseNoRow e => e = OtherExn end.
+Proof.
+  intros convs d comment text. unfold load_delimited.
+  pose proof (load_rows_errors convs d comment (lines text) 1) as H.
+  destruct d; [| |reflexivity]; destruct (load_rows num conv convs _ comment 1 (lines text)); try exact I; exact H.
+Qed.
+Lemma load_rows_all_comments : forall convs d comment ls k,
+  forallb (is_comment comment) ls = true -> load_rows num conv convs d comment k ls = ROk [].
+Proof.
+  intros convs d comment. induction ls as [|l ls IH]; intros k H; [reflexivity|].
+  cbn [forallb] in H. apply andb_true_iff in H as [Hl Hls]. cbn [load_rows]. rewrite Hl. apply IH; assumption.
+Qed.
+
+(* three float columns: the result is three columns of VNum of the same length *)
+Definition row3 (t : num * num * num) : list (value num) := [VNum (fst (fst t)); VNum (snd (fst t)); VNum (snd t)].
+Lemma load_rows_fff : forall d comment ls k rows,
+  load_rows num conv [CFloat; CFloat; CFloat] d comment k ls = ROk rows -> exists ts, rows = map row3 ts.
+Proof.
+  intros d comment. induction ls as [|l ls IH]; intros k rows H; cbn [load_rows] in H.
+  - injection H as <-. exists []. reflexivity.
+  - destruct (is_comment comment l); [eapply IH; eassumption|].
+    destruct (re_split d _ (pystrip l)) as [data|]; [|discriminate].
+    destruct (Nat.eqb (length [CFloat; CFloat; CFloat]) (length data)) eqn:El; cbn [negb] in H; [|discriminate].
+    apply Nat.eqb_eq in El. destruct data as [|t1 [|t2 [|t3 [|? ?]]]]; try discriminate.
+    cbn [convert_row convert] in H.
+    destruct (conv t1) as [a|]; [|discriminate]. destruct (conv t2) as [b|]; [|discriminate].
+    destruct (conv t3) as [c|]; [|discriminate]. cbn [option_map] in H.
+    destruct (load_rows num conv [CFloat; CFloat; CFloat] d comment (S k) ls) as [vss| |] eqn:E; try discriminate.
+    injection H as <-. destruct (IH _ _ E) as (ts & ->). exists ((a, b, c) :: ts). reflexivity.
+Qed.
+Lemma transpose_row3 : forall ts,
+  transpose 3 (map row3 ts)
+  = [map (fun t => VNum (fst (fst t))) ts; map (fun t => VNum (snd (fst t))) ts; map (fun t => VNum (snd t)) ts].
+Proof. induction ts as [|t ts IH]; [reflexivity|]. cbn [map transpose fold_right]. fold (transpose 3 (map row3 ts)). rewrite IH. reflexivity. Qed.
+Theorem load_delimited_fff : forall d comment text r,
+  load_delimited num conv [CFloat; CFloat; CFloat] d comment text = ROk r ->
+  exists ts : list (num * num * num),
+    r = Cols [map (fun t => VNum (fst (fst t))) ts; map (fun t => VNum (snd (fst t))) ts; map (fun t => VNum (snd t)) ts].
+Proof.
+  intros d comment text r H. unfold load_delimited in H.
+  assert (H' : match load_rows num conv [CFloat; CFloat; CFloat] d comment 1 (lines text) with
+               | ROk rows => ROk (pack num 3 (transpose 3 rows))
+               | RaiseAt r e => RaiseAt r e | RaiseNoRow e => RaiseNoRow e end = ROk r) by (destruct d; [exact H|exact H|discriminate]).
+  destruct (load_rows num conv [CFloat; CFloat; CFloat] d comment 1 (lines text)) as [rows| |] eqn:E; try discriminate.
+  injection H' as <-. destruct (load_rows_fff _ _ _ _ _ E) as (ts & ->). exists ts. rewrite transpose_row3. reflexivity.
+Qed.
+Lemma nums_map : forall {T} (f : T -> num) (l : list T), nums num (map (fun t => VNum (f t)) l) = map f l.
+Proof. induction l as [|x l IH]; [reflexivity|]. cbn. f_equal. exact IH. Qed.
 End Generic.
 
 (* ---------- rows and files ---------- *)
@@ -688,35 +751,58 @@ Qed.
 Definition in01 (w : xval) : bool := xle xzero w && xle w (Fin 1%Q).
 Theorem load_tempo_spec : forall d cm text,
   wrapper_spec (load_delimited num conv [CFloat; CFloat; CFloat] d cm text) (load_tempo num conv val d cm text)
-    (fun r w => exists c1 c2 c3, r = Cols [c1; c2; c3] /\
-       w = match nums num c3 with
-           | [] => (RaiseNoRow IndexError, None)
-           | wt :: _ =>
-               if negb (Nat.eqb (length (nums num c1)) 1) then (RaiseNoRow ValueError, None)
-               else (if in01 (val wt) then ROk (nums num c1 ++ nums num c2, wt) else RaiseNoRow ValueError,
-                     validate_tempi (map val (nums num c1 ++ nums num c2)))
-           end).
+    (fun r w => exists ts : list (num * num * num),
+       r = Cols [map (fun t => VNum (fst (fst t))) ts; map (fun t => VNum (snd (fst t))) ts; map (fun t => VNum (snd t)) ts]
+       /\ w = match ts with
+              | [(a, b, wt)] => (if in01 (val wt) then ROk ([a; b], wt) else RaiseNoRow ValueError, validate_tempi [val a; val b])
+              | _ => (RaiseNoRow ValueError, None)                       (* not exactly one line *)
+              end).
 Proof.
-  intros d cm text. unfold wrapper_spec, load_tempo, with_cols.
-  destruct (load_delimited num conv [CFloat; CFloat; CFloat] d cm text) as [r| |] eqn:E; try reflexivity.
-  destruct (shape3 _ _ _ _ _ _ _ E) as (a & b & c & ->). do 3 eexists; split; [reflexivity|].
-  destruct (nums num c); [reflexivity|]. destruct (negb (Nat.eqb (length (nums num a)) 1)); [reflexivity|].
-  unfold in01. destruct (xle xzero (val n) && xle (val n) (Fin 1%Q)); reflexivity.
+  intros d cm text. unfold wrapper_spec.
+  destruct (load_delimited num conv [CFloat; CFloat; CFloat] d cm text) as [r| |] eqn:E;
+    [|unfold load_tempo, with_cols; rewrite E; reflexivity..].
+  destruct (load_delimited_fff _ _ _ _ _ _ E) as (ts & ->). exists ts. split; [reflexivity|].
+  unfold load_tempo, with_cols. rewrite E. rewrite !nums_map, map_length.
+  destruct ts as [|[[a b] wt] [|t' ts']]; try reflexivity.
+  cbn. unfold in01. destruct (xle xzero (val wt) && xle (val wt) (Fin 1%Q)); reflexivity.
 Qed.
 Corollary load_tempo_one_row : forall d cm text a b w,
   load_delimited num conv [CFloat; CFloat; CFloat] d cm text = ROk (Cols [[VNum a]; [VNum b]; [VNum w]]) ->
   load_tempo num conv val d cm text
   = (if in01 (val w) then ROk ([a; b], w) else RaiseNoRow ValueError, validate_tempi [val a; val b]).
 Proof.
-  intros d cm text a b w H. pose proof (load_tempo_spec d cm text) as S. rewrite H in S. cbn [wrapper_spec] in S.
-  destruct S as (c1 & c2 & c3 & E & ->). injection E as <- <- <-. reflexivity.
+  intros d cm text a b w H. unfold load_tempo, with_cols. rewrite H. cbn. unfold in01.
+  destruct (xle xzero (val w) && xle (val w) (Fin 1%Q)); reflexivity.
 Qed.
-Corollary load_tempo_multi_line : forall d cm text a a' c1 b c2 w c3,
-  load_delimited num conv [CFloat; CFloat; CFloat] d cm text = ROk (Cols [VNum a :: VNum a' :: c1; b :: c2; VNum w :: c3]) ->
+(* any number of data lines other than one -- none at all included -- is the documented ValueError *)
+Corollary load_tempo_multi_line : forall d cm text c1 c2 c3,
+  load_delimited num conv [CFloat; CFloat; CFloat] d cm text = ROk (Cols [c1; c2; c3]) -> length (nums num c1) <> 1 ->
   load_tempo num conv val d cm text = (RaiseNoRow ValueError, None).
 Proof.
-  intros d cm text a a' c1 b c2 w c3 H. pose proof (load_tempo_spec d cm text) as S. rewrite H in S. cbn [wrapper_spec] in S.
-  destruct S as (x1 & x2 & x3 & E & ->). injection E as <- <- <-. reflexivity.
+  intros d cm text c1 c2 c3 H Hn. unfold load_tempo, with_cols. rewrite H.
+  destruct (Nat.eqb (length (nums num c1)) 1) eqn:E; [apply Nat.eqb_eq in E; congruence|reflexivity].
+Qed.
+Theorem load_tempo_no_data_raises_value_error : forall d cm text, supported d = true ->
+  forallb (is_comment cm) (lines text) = true ->
+  load_tempo num conv val d cm text = (RaiseNoRow ValueError, None).
+Proof.
+  intros d cm text Hd H. unfold load_tempo, with_cols, load_delimited.
+  rewrite (load_rows_all_comments num conv _ d cm _ 1 H). destruct d; try discriminate; reflexivity.
+Qed.
+(* was IndexError before /repo 7de24cd *)
+Theorem load_tempo_empty_raises_value_error : forall d, supported d = true ->
+  (forall cm, load_tempo num conv val d cm [] = (RaiseNoRow ValueError, None))
+  /\ load_tempo num conv val d (Some (Chr 35)) [35; 99; 10] = (RaiseNoRow ValueError, None).
+Proof. intros d Hd. split; [intros cm|]; apply load_tempo_no_data_raises_value_error; try assumption; reflexivity. Qed.
+Theorem load_tempo_never_index_error : forall d cm text,
+  match fst (load_tempo num conv val d cm text) with ROk _ => True | RaiseAt _ e | RaiseNoRow e => e <> IndexError end.
+Proof.
+  intros d cm text. pose proof (load_tempo_spec d cm text) as S0. pose proof (load_delimited_errors num conv [CFloat; CFloat; CFloat] d cm text) as Er.
+  unfold wrapper_spec in S0. destruct (load_delimited num conv [CFloat; CFloat; CFloat] d cm text) as [r|k e|e].
+  - destruct S0 as (ts & _ & ->). destruct ts as [|[[a b] wt] [|t' ts']]; cbn; try discriminate.
+    destruct (in01 (val wt)); cbn; [exact I|discriminate].
+  - rewrite S0. cbn. subst e. discriminate.
+  - rewrite S0. cbn. subst e. discriminate.
 Qed.
 
 Theorem load_key_spec : forall d cm text,
@@ -744,32 +830,35 @@ Proof.
 Qed.
 (* validate_key only ever raises ValueError (it is the only exception the model of key.validate_key contains) *)
 
-(* ---------- refuted: "every error of a loader is a ValueError" ---------- *)
-Theorem load_tempo_empty_index_error_refuted :
-  exists text, forall d cm, supported d = true -> load_tempo num conv val d cm text = (RaiseNoRow IndexError, None).
-Proof. exists []. intros [k|k|] cm H; try discriminate; reflexivity. Qed.
-(* a file holding only a comment line does the same *)
-Theorem load_tempo_comment_only_index_error : forall d, supported d = true ->
-  load_tempo num conv val d (Some (Chr 35)) [35; 99; 10] = (RaiseNoRow IndexError, None).
-Proof. intros [k|k|] H; try discriminate; reflexivity. Qed.
+(* ---------- load_patterns: every error is a ValueError; a data line without exactly two fields names its row ---------- *)
+Theorem load_patterns_bad_line : forall line rest row plist pattern occ,
+  contains s_pattern line = false -> contains s_occurrence line = false ->
+  length (split_on c_comma line) <> 2 ->
+  patterns_loop num conv row (line :: rest) plist pattern occ = RaiseAt row ValueError.
+Proof.
+  intros line rest row plist pattern occ Hp Ho Hl. cbn [patterns_loop]. rewrite Hp, Ho.
+  destruct (split_on c_comma line) as [|a [|b [|? ?]]]; try reflexivity. cbn in Hl. congruence.
+Qed.
+Lemma patterns_loop_only_value_error : forall ls row plist pattern occ,
+  match patterns_loop num conv row ls plist pattern occ with ROk _ => True | RaiseAt _ e | RaiseNoRow e => e = ValueError end.
+Proof.
+  induction ls as [|line ls IH]; intros row plist pattern occ; cbn [patterns_loop]; [exact I|].
+  destruct (contains s_pattern line); [apply IH|]. destruct (contains s_occurrence line); [apply IH|].
+  destruct (split_on c_comma line) as [|a [|b [|? ?]]]; try reflexivity.
+  destruct (conv a); [|reflexivity]. destruct (conv b); [|reflexivity]. apply IH.
+Qed.
+Theorem load_patterns_only_value_error : forall text,
+  match load_patterns num conv text with ROk _ => True | RaiseAt _ e | RaiseNoRow e => e = ValueError end.
+Proof. intros text. apply patterns_loop_only_value_error. Qed.
 
 Definition patterns_witness : str :=      (* "pattern1\noccurrence1\n1.0\n" : the data row has no comma *)
   [112;97;116;116;101;114;110;49;10; 111;99;99;117;114;114;101;110;99;101;49;10; 49;46;48;10].
-Theorem load_patterns_index_error_refuted :
-  exists text, forall x, conv [49;46;48;10] = Some x -> load_patterns num conv text = RaiseNoRow IndexError.
-Proof. exists patterns_witness. intros x H. unfold load_patterns. cbn. rewrite H. reflexivity. Qed.
-(* in general: a data row without a comma whose text float() accepts *)
-Theorem load_patterns_no_comma_index_error : forall line rest plist pattern occ x,
-  contains s_pattern line = false -> contains s_occurrence line = false ->
-  existsb (Nat.eqb c_comma) line = false -> conv line = Some x ->
-  patterns_loop num conv (line :: rest) plist pattern occ = RaiseNoRow IndexError.
-Proof.
-  intros line rest plist pattern occ x Hp Ho Hc Hx. cbn [patterns_loop]. rewrite Hp, Ho.
-  assert (E : split_on c_comma line = [line]).
-  { clear -Hc. induction line as [|c l IH]; [reflexivity|]. cbn [existsb] in Hc. apply orb_false_iff in Hc as [Hc Hl].
-    cbn [split_on]. rewrite Nat.eqb_sym in Hc. rewrite Hc, (IH Hl). reflexivity. }
-  rewrite E, Hx. reflexivity.
-Qed.
+Definition patterns_witness3 : str :=     (* "pattern1\noccurrence1\n1,2,3\n" : three values *)
+  [112;97;116;116;101;114;110;49;10; 111;99;99;117;114;114;101;110;99;101;49;10; 49;44;50;44;51;10].
+(* were IndexError / silently accepted before /repo f596eb3; the row is the 1-based line, header lines count *)
+Example load_patterns_witnesses_fixed :
+  load_patterns num conv patterns_witness = RaiseAt 3 ValueError /\ load_patterns num conv patterns_witness3 = RaiseAt 3 ValueError.
+Proof. split; reflexivity. Qed.
 End Wrappers.
 
 (* ---------- the documented delimiters ---------- *)
@@ -1010,62 +1099,62 @@ Proof.
     rewrite Nat.eqb_sym in Hx. rewrite Hx, (IH b Ha Hb). reflexivity.
 Qed.
 
-Lemma loop_rows : forall rows rest plist P c, Forall wf_prow rows ->
-  patterns_loop num conv (map addnl (map prow_core rows) ++ rest) plist P c
-  = patterns_loop num conv rest plist P (c ++ map (fun r => (px r, py r)) rows).
+Lemma loop_rows : forall rows row rest plist P c, Forall wf_prow rows ->
+  patterns_loop num conv row (map addnl (map prow_core rows) ++ rest) plist P c
+  = patterns_loop num conv (length rows + row) rest plist P (c ++ map (fun r => (px r, py r)) rows).
 Proof.
-  induction rows as [|r rows IH]; intros rest plist P c H; [cbn; rewrite app_nil_r; reflexivity|].
+  induction rows as [|r rows IH]; intros row rest plist P c H; [cbn; rewrite app_nil_r; reflexivity|].
   inversion H as [|? ? Hr Hrows]; subst. destruct Hr as (Hnl & Ha & Hb & Hp & Ho & Hx & Hy).
   cbn [map app patterns_loop]. rewrite Hp, Ho. unfold addnl, prow_core at 1. rewrite <- app_assoc. cbn [app].
-  rewrite (split_on_two _ _ _ Ha Hb), Hx, Hy, (IH _ _ _ _ Hrows), <- app_assoc. reflexivity.
+  rewrite (split_on_two _ _ _ Ha Hb), Hx, Hy, (IH _ _ _ _ _ Hrows), <- app_assoc. cbn [length]. rewrite Nat.add_succ_r. reflexivity.
 Qed.
-Lemma loop_occ : forall o rest plist P c, wf_occ o ->
-  patterns_loop num conv (map addnl (occ_cores o) ++ rest) plist P c
-  = patterns_loop num conv rest plist (close_occ P c) (occ_vals o).
+Lemma loop_occ : forall o row rest plist P c, wf_occ o ->
+  patterns_loop num conv row (map addnl (occ_cores o) ++ rest) plist P c
+  = patterns_loop num conv (length (occ_cores o) + row) rest plist (close_occ P c) (occ_vals o).
 Proof.
-  intros [h rows] rest plist P c (Hnl & Hp & Ho & Hne & Hrows). cbn [fst snd] in *.
-  unfold occ_cores. cbn [fst snd map app patterns_loop]. rewrite Hp, Ho. rewrite (loop_rows _ _ _ _ _ Hrows). reflexivity.
+  intros [h rows] row rest plist P c (Hnl & Hp & Ho & Hne & Hrows). cbn [fst snd] in *.
+  unfold occ_cores. cbn [fst snd map app patterns_loop length]. rewrite Hp, Ho. rewrite (loop_rows _ _ _ _ _ _ Hrows).
+  rewrite map_length, Nat.add_succ_r. reflexivity.
 Qed.
 Lemma close_occ_nonempty : forall (P : list (list (num * num))) c, c <> [] -> close_occ P c = P ++ [c].
 Proof. intros P [|x c] H; [congruence|reflexivity]. Qed.
 Lemma close_pat_nonempty : forall (L : list (list (list (num * num)))) P, P <> [] -> close_pat L P = L ++ [P].
 Proof. intros L [|x P] H; [congruence|reflexivity]. Qed.
-Lemma map_cores_app : forall (a b : list str), map addnl (a ++ b) = map addnl a ++ map addnl b.
-Proof. intros. apply map_app. Qed.
 
 Lemma loop_occs : forall os P c, Forall wf_occ os ->
-  exists P' c', (forall rest plist, patterns_loop num conv (map addnl (concat (map occ_cores os)) ++ rest) plist P c
-                                    = patterns_loop num conv rest plist P' c')
+  exists P' c', (forall row rest plist, patterns_loop num conv row (map addnl (concat (map occ_cores os)) ++ rest) plist P c
+                                    = patterns_loop num conv (length (concat (map occ_cores os)) + row) rest plist P' c')
                 /\ close_occ P' c' = close_occ P c ++ map occ_vals os.
 Proof.
   induction os as [|o os IH]; intros P c H.
   - exists P, c. split; [reflexivity|]. cbn. rewrite app_nil_r. reflexivity.
   - inversion H as [|? ? Ho Hos]; subst.
     destruct (IH (close_occ P c) (occ_vals o) Hos) as (P' & c' & Hl & Hc). exists P', c'. split.
-    + intros rest plist. cbn [map concat]. rewrite map_app, <- app_assoc, (loop_occ _ _ _ _ _ Ho). apply Hl.
+    + intros row rest plist. cbn [map concat]. rewrite map_app, <- app_assoc, (loop_occ _ _ _ _ _ _ Ho), Hl.
+      rewrite app_length. f_equal. lia.
     + rewrite Hc. rewrite close_occ_nonempty.
       * cbn [map]. rewrite <- app_assoc. reflexivity.
       * destruct Ho as (_ & _ & _ & Hne & _). unfold occ_vals. destruct (snd o); [congruence|discriminate].
 Qed.
 Lemma loop_pat : forall p, wf_pat p ->
-  exists P' c', (forall rest plist P c, patterns_loop num conv (map addnl (pat_cores p) ++ rest) plist P c
-                                        = patterns_loop num conv rest (close_pat plist (close_occ P c)) P' c')
+  exists P' c', (forall row rest plist P c, patterns_loop num conv row (map addnl (pat_cores p) ++ rest) plist P c
+                  = patterns_loop num conv (length (pat_cores p) + row) rest (close_pat plist (close_occ P c)) P' c')
                 /\ close_occ P' c' = pat_vals p.
 Proof.
   intros [h os] (Hnl & Hp & Hne & Hos). cbn [fst snd] in *.
   destruct (loop_occs os [] [] Hos) as (P' & c' & Hl & Hc). exists P', c'. split; [|exact Hc].
-  intros rest plist P c. unfold pat_cores. cbn [fst snd map app patterns_loop]. rewrite Hp. apply Hl.
+  intros row rest plist P c. unfold pat_cores. cbn [fst snd map app patterns_loop length]. rewrite Hp, Hl, Nat.add_succ_r. reflexivity.
 Qed.
 Lemma loop_pats : forall ps plist P c, Forall wf_pat ps ->
-  exists plist' P' c', (forall rest, patterns_loop num conv (map addnl (concat (map pat_cores ps)) ++ rest) plist P c
-                                     = patterns_loop num conv rest plist' P' c')
+  exists plist' P' c', (forall row rest, patterns_loop num conv row (map addnl (concat (map pat_cores ps)) ++ rest) plist P c
+                                     = patterns_loop num conv (length (concat (map pat_cores ps)) + row) rest plist' P' c')
                        /\ close_pat plist' (close_occ P' c') = close_pat plist (close_occ P c) ++ map pat_vals ps.
 Proof.
   induction ps as [|p ps IH]; intros plist P c H.
   - exists plist, P, c. split; [reflexivity|]. cbn. rewrite app_nil_r. reflexivity.
   - inversion H as [|? ? Hp Hps]; subst. destruct (loop_pat p Hp) as (P1 & c1 & Hl1 & Hc1).
     destruct (IH (close_pat plist (close_occ P c)) P1 c1 Hps) as (plist' & P' & c' & Hl & Hc). exists plist', P', c'. split.
-    + intros rest. cbn [map concat]. rewrite map_app, <- app_assoc, Hl1. apply Hl.
+    + intros row rest. cbn [map concat]. rewrite map_app, <- app_assoc, Hl1, Hl. rewrite app_length. f_equal. lia.
     + rewrite Hc, Hc1. rewrite close_pat_nonempty.
       * cbn [map]. rewrite <- app_assoc. reflexivity.
       * destruct Hp as (_ & _ & Hne & _). unfold pat_vals. destruct (snd p); [congruence|discriminate].
@@ -1087,6 +1176,37 @@ Proof.
   intros ps H. unfold load_patterns, p_render. rewrite (lines_concat_nl _ (nonl_cores _ H)).
   destruct (loop_pats ps [] [] [] H) as (plist' & P' & c' & Hl & Hc).
   rewrite <- (app_nil_r (map addnl _)), Hl. cbn [patterns_loop]. rewrite Hc. reflexivity.
+Qed.
+Lemma lines_cores_app : forall cores X, forallb nonl cores = true ->
+  lines (concat (map addnl cores) ++ X) = map addnl cores ++ lines X.
+Proof.
+  induction cores as [|c cores IH]; intros X H; [reflexivity|]. cbn [forallb] in H. apply andb_true_iff in H as [Hc Hr].
+  cbn [map concat]. unfold addnl at 1. rewrite <- !app_assoc. cbn [app]. rewrite (lines_app_nl _ _ Hc), (IH X Hr). reflexivity.
+Qed.
+(* after any well-formed patterns, a line that is neither a header nor made of exactly two comma-separated fields raises
+   ValueError naming its 1-based line number (header lines count); the rest of the file is irrelevant *)
+Theorem load_patterns_wrong_columns_raise : forall ps core rest,
+  Forall wf_pat ps -> nonl core = true ->
+  contains s_pattern (addnl core) = false -> contains s_occurrence (addnl core) = false ->
+  length (split_on c_comma (addnl core)) <> 2 ->
+  load_patterns num conv (p_render ps ++ core ++ c_nl :: rest)
+  = RaiseAt (S (length (concat (map pat_cores ps)))) ValueError.
+Proof.
+  intros ps core rest H Hnl Hp Ho Hl. unfold load_patterns, p_render.
+  rewrite (lines_cores_app _ _ (nonl_cores _ H)), (lines_app_nl _ _ Hnl).
+  destruct (loop_pats ps [] [] [] H) as (plist' & P' & c' & Hloop & _). rewrite Hloop, Nat.add_1_r.
+  apply load_patterns_bad_line; assumption.
+Qed.
+(* in particular a data row without a comma *)
+Corollary load_patterns_no_comma_raises : forall ps core rest,
+  Forall wf_pat ps -> nonl core = true ->
+  contains s_pattern (addnl core) = false -> contains s_occurrence (addnl core) = false ->
+  hasc c_comma (addnl core) = false ->
+  load_patterns num conv (p_render ps ++ core ++ c_nl :: rest)
+  = RaiseAt (S (length (concat (map pat_cores ps)))) ValueError.
+Proof.
+  intros ps core rest H Hnl Hp Ho Hc. apply load_patterns_wrong_columns_raise; try assumption.
+  rewrite (split_on_free _ _ Hc). discriminate.
 Qed.
 End Patterns.
 
@@ -1124,3 +1244,7 @@ Proof.
 Qed.
 Example ex_patterns_roundtrip : load_patterns nat tconv_ws (p_render nat ex_patterns) = ROk [[[(0, 1); (1, 0)]]].
 Proof. rewrite (patterns_roundtrip nat tconv_ws _ ex_patterns_wf). reflexivity. Qed.
+(* a fifth line "1" (no comma) after the four well-formed lines of ex_patterns, then garbage *)
+Example ex_patterns_wrong_columns :
+  load_patterns nat tconv_ws (p_render nat ex_patterns ++ [49] ++ c_nl :: [120; 10]) = RaiseAt 5 ValueError.
+Proof. apply (load_patterns_no_comma_raises nat tconv_ws _ _ _ ex_patterns_wf); reflexivity. Qed.
